@@ -220,6 +220,10 @@ func c11K2(c *rt.Ctx) {
 					continue
 				}
 				input := ae.Args[0]
+				// a slice field of a struct built on the path that was never assigned is the nil slice
+				if c11ZeroField(input) {
+					input = &an.Sym{Kind: an.KConst}
+				}
 				// --- the elements put into the input, and when
 				var sinks []c11Sink
 				inputOK := true
@@ -232,7 +236,7 @@ func c11K2(c *rt.Ctx) {
 					}
 				case an.KAppend, an.KConst:
 					base, elems, spread := an.AppendElems(input)
-					if spread || (base != nil && !base.IsNil() && base.Kind != an.KFresh) {
+					if spread || (base != nil && !base.IsNil() && base.Kind != an.KFresh && !c11ZeroField(base)) {
 						inputOK = false
 						break
 					}
@@ -383,6 +387,9 @@ func c11K2(c *rt.Ctx) {
 					}
 					rk := short + " returned public key = verified pubshare"
 					pks := q.p.Results[1]
+					if c11ZeroField(pks) {
+						pks = &an.Sym{Kind: an.KConst}
+					}
 					if pks.IsNil() {
 						if errR := q.p.Results[2]; errR != nil && errR.IsNil() && len(sinks) > 0 {
 							agg.bad(rk, apos, "no public keys are returned with the aggregate signature")
@@ -390,7 +397,7 @@ func c11K2(c *rt.Ctx) {
 						continue
 					}
 					base, elems, spread := an.AppendElems(pks)
-					if pks.Kind != an.KAppend || spread || (base != nil && !base.IsNil() && base.Kind != an.KFresh) {
+					if pks.Kind != an.KAppend || spread || (base != nil && !base.IsNil() && base.Kind != an.KFresh && !c11ZeroField(base)) {
 						if errR := q.p.Results[2]; errR != nil && errR.IsNil() {
 							agg.unsure(rk, apos, "returned key list is not a slice grown by append on the path")
 						}
@@ -755,4 +762,9 @@ func (q *c11Path) sharePkEquals(sh *c11X, it string, dataP *c11X, before int) bo
 	}
 	t, known := q.eqFact(before, isOwnKey, func(x *c11X) bool { return c11IsRKey(x, it, dataP) })
 	return known && t
+}
+
+// c11ZeroField: the symbol of a field that was never assigned in a struct value built on the path (its zero value).
+func c11ZeroField(s *an.Sym) bool {
+	return s != nil && s.Kind == an.KPure && strings.HasPrefix(s.Name, "zerofield") && len(s.Args) == 0
 }
